@@ -28,7 +28,7 @@ PROSE = {
  "C06": ("proof", "holds; `Writer.Reset` defect found and fixed", "more than one send extension, `ReadFrom`; one clause `Write [fitdata]` carried as `unproved`"),
  "C07": ("proof", "holds; `UTF8Reader.Reset` and the `Reader.Read` state leak found and fixed", "chain as black box in `Reader.Read`"),
  "C08": ("proof", "holds; two defects found and fixed", "payload-carrying ping/pong/close-echo paths (`io.Copy` into a `ControlWriter` over the same buffer) are abstracted; in `readData` the handler is a black box assumed to drain the frame it is given (what is proved is that this connection's handler is wired in as `OnIntermediate` and called for stand-alone control frames, with header and UTF-8 checks on)"),
- "C09": ("proof, **partial**", "holds; one defect found and fixed (HTTP/2 accepted)", "header *contents* (which headers were seen, key length, accept value, selection results): response writers, `readLine`, `hijack`, `httpGetHeader`, token scanners and callbacks are trusted/abstracted — the iff-statement of C09 is **not** proved"),
+ "C09": ("proof, **partial**", "holds; one defect found and fixed (HTTP/2 accepted)", "header *contents* (which headers were seen, the accept value, selection results; the key length is covered: only a 24-byte value is ever copied into the nonce / handed to the response writer): response writers, `readLine`, `hijack`, `httpGetHeader`, token scanners and callbacks are trusted/abstracted — the iff-statement of C09 is **not** proved"),
  "C10": ("proof, **partial**", "holds; two defects found and fixed (digit hole, status not 3DIGIT)", "request headers other than the request line and Host, which response headers were seen, extension matching, `Dialer.Dial`"),
  "C11": ("**no**", "not decided", "whole property (§5)"),
  "C12": ("proof of the glue", "holds; `ReadByte` defect found and fixed", "the DEFLATE codec (arbitrary code under `assigns everything`) — interoperability with an independent inflater is an assumption about compress/flate, not a theorem"),
